@@ -20,5 +20,9 @@ def main (args : List String) : IO UInt32 := do
   | ["json"] => Proto.loop stdin stdout DriverJson.step DriverJson.init; return 0
   | ["search"] => Proto.loop stdin stdout DriverSearch.step DriverSearch.init; return 0
   | ["setops"] => Proto.loop stdin stdout DriverSetops.step DriverSetops.init; return 0
+  | ["sbt"] => Proto.loop stdin stdout DriverSbt.step DriverSbt.init; return 0
+  | ["nodegraph"] => Proto.loop stdin stdout DriverNodegraph.step DriverNodegraph.init; return 0
+  | ["compare"] => Proto.loop stdin stdout DriverCompare.step DriverCompare.init; return 0
+  | ["ani"] => Proto.loop stdin stdout DriverAni.step (); return 0
   | ["own"] => Proto.loop stdin stdout DriverOwn.stepLine Own.Heap.empty; return 0
   | _ => IO.eprintln "usage: Main <module>"; return 2
